@@ -1,7 +1,29 @@
 """Which rules decide which property (see DESIGN.md section 5)."""
 from . import rules_conc as conc
+from . import rules_effects as fx
 
 PROPERTIES = {
+    'C15': {
+        'rules': [fx.rule_pure_observers],
+        'explanation': 'May-effect analysis over the whole call graph from every observer entry point (contains_key, iter, '
+                       'Iter::next, EntryRef accessors, policy / counter getters, Debug) of both caches: none of them can reach a '
+                       'sketch write, a timestamp / flag / watermark write, a recency update (move-to-back / push role), a queue send, '
+                       'a ReadOp/WriteOp construction, (sync) a map mutation or maintenance; unsync contains_key may remove map '
+                       'entries only on paths where the expiry predicate holds. May-effects over-approximate every execution, so '
+                       'silence holds for all histories and configurations.',
+        'decides': 'observers cannot change popularity, recency, timestamps, flags, queues or trigger maintenance; unsync contains_key '
+                   'removals have cause expiry',
+        'does_not_decide': 'effects of user callbacks (Hash/Eq/Clone/Debug); HashMap/DashMap internals',
+    },
+    'C14': {
+        'rules': [fx.rule_auth_sketch_record, fx.rule_pair_readop_once, fx.rule_const_masks],
+        'explanation': 'Decides only the clause "only get calls are recorded, each exactly once" plus the constant relations the '
+                       'estimator bounds rest on: who can reach the sketch increment role, where ReadOps are constructed and '
+                       'consumed, one record per path through get, RESET/ONE/nibble masks and the 128 clamp.',
+        'decides': 'only get (hit or miss) feeds the popularity sketch, exactly once per call; mask constants are the ones halving / '
+                   'saturation need',
+        'does_not_decide': 'the count-min numerics: lower bound c, exact halving for all table states, collision behaviour (run-time values)',
+    },
     'C09': {
         'rules': [conc.rule_lock_order, conc.rule_pair_sync_flag, conc.rule_auth_nonblocking, conc.rule_loops,
                   conc.rule_loop_retry, conc.rule_const_logsizes, conc.rule_housekeeper_lifetime],
